@@ -230,9 +230,9 @@ example (th : PyV) (hth : WideThr .jaccard th) :
     filterTables .size { cfg := cfgWith .jaccard th } exA exT exToks 4 = .ok fx ∧
     ∀ row ∈ fp.rows, ∃ row' ∈ fx.rows, row'.drop 1 = row.drop 1 ∧ rowKeys row' = rowKeys row := by
   obtain ⟨fp, hp⟩ := EntryFilters.filterTables_total .position { cfg := cfgWith .jaccard th } exA exT exToks 4 exL exR
-    ex_valid ex_keys
+    ex_valid ex_keys (by decide +kernel)
   obtain ⟨fx, hx⟩ := EntryFilters.filterTables_total .size { cfg := cfgWith .jaccard th } exA exT exToks 4 exL exR
-    ex_valid ex_keys
+    ex_valid ex_keys (by decide +kernel)
   exact ⟨fp, fx, hp, hx, position_subset_size_wide _ exA exT exToks 4 exL exR fp fx ex_valid ex_keys .jaccard (Or.inl rfl)
     th hth rfl rfl exTok_small hp hx⟩
 
